@@ -83,16 +83,16 @@ fn pad_hello(hello: &[u8], n: usize) -> Vec<u8> {
     out
 }
 
-struct Sample {
-    name: String,
-    bytes: Vec<u8>,
+pub struct Sample {
+    pub name: String,
+    pub bytes: Vec<u8>,
     /// the true random if the first record holds a complete ClientHello
     random: Option<Vec<u8>>,
     /// a complete, standard hello: the value must be found once the record is complete
     must_find: bool,
 }
 
-fn corpus() -> Result<Vec<Sample>, String> {
+pub fn corpus() -> Result<Vec<Sample>, String> {
     let mut v = vec![];
     let long60 = format!("{}.t", "a".repeat(58));
     let long253 = format!("{}.{}.{}.{}", "a".repeat(63), "b".repeat(63), "c".repeat(63), "d".repeat(61));
